@@ -76,7 +76,7 @@ def regions_of(dump, defs, extra=()):
     return regs
 
 
-def check_tree(drv, el, dump, defs, values, out, stats, history=(), extra=()):
+def check_tree(drv, el, dump, defs, values, out, stats, history=(), extra=(), note=None):
     """defs: list of (key, real element, dump); history: the definitions of earlier serializations of this same tree object;
     extra: further (element, dump) pairs passed after the primary (`serialize_json(el, *extra)`)."""
     kwargs = {"definitions": {k: e for k, e, _ in defs}} if defs else {}
@@ -92,6 +92,8 @@ def check_tree(drv, el, dump, defs, values, out, stats, history=(), extra=()):
         req["definitions"] = [[k, d] for k, _, d in defs]
     rep = drv.ask(req)
     case = {"element": dump, "definitions": [[k, d] for k, _, d in defs]}
+    if note:
+        case.update(note)
     if extra:
         case["extra"] = [d for _, d in extra]
         stats["several-elements"] = stats.get("several-elements", 0) + 1
@@ -167,6 +169,35 @@ def check_tree(drv, el, dump, defs, values, out, stats, history=(), extra=()):
             return
 
 
+def inherited_case(drv, spec, out, stats, only=None):
+    """spec: {"layers": [[ [name, "Integer"|"String", required] ...] per class], "closed": [bool per class], "parent_first": bool}"""
+    from statham.schema.elements import Integer, Object, String
+    from statham.schema.elements.meta import ObjectClassDict, ObjectMeta
+    from statham.schema.property import Property
+    base, chain = Object, []
+    for li, layer in enumerate(spec["layers"]):
+        cd = ObjectClassDict()
+        for nme, kind, req in layer:
+            cd[nme] = Property({"Integer": Integer, "String": String}[kind](), required=bool(req))
+        kwargs = {"additionalProperties": False} if spec["closed"][li] else {}
+        base = ObjectMeta(f"Inh{li}", (base,), cd, **kwargs)
+        chain.append(base)
+    names = [x[0] for layer in spec["layers"] for x in layer]
+    cut = len(spec["layers"][0])
+    vals = [{}, {n: 1 for n in names}, {n: "s" for n in names}, {names[0]: 1}, {names[-1]: "s"}, {n: 1 for n in names[:cut]}, {"zz": 1}]
+    for c in (chain if spec["parent_first"] else list(reversed(chain))):
+        for v in vals[:3]:
+            core.real_call(c, v)
+    for k, c in enumerate(chain):
+        if only is not None and k != only:
+            continue
+        try:
+            check_tree(drv, c, core.dump_elem(c), [], vals, out, stats, note={"inherited": spec, "class_index": k})
+            stats["inherited-class"] = stats.get("inherited-class", 0) + 1
+        except (TypeError, ValueError):
+            pass
+
+
 def run(ctx, scale=1.0):
     rng = random.Random(ctx["seed"] + 3)
     out = Outcome()
@@ -234,6 +265,13 @@ def run(ctx, scale=1.0):
                     dd = dg.leaf()
                     rebound.append((k, dsl.build(dd), dd))
                 check_tree(drv, el, dump, rebound, values, out, stats, history=[defs, []])
+        # model classes that inherit from one another, the parent used first: the subclass still accepts what its document says
+        for i in range(int(30 * scale)):
+            names = rng.sample(["a", "b", "c", "kind", "n"], rng.choice([2, 3, 4]))
+            cut = rng.randint(1, len(names) - 1)
+            spec = {"layers": [[[nme, rng.choice(["Integer", "String"]), rng.random() < 0.6] for nme in layer] for layer in (names[:cut], names[cut:])],
+                    "closed": [rng.random() < 0.3, rng.random() < 0.3], "parent_first": bool(i % 3)}
+            inherited_case(drv, spec, out, stats)
     finally:
         drv.close()
     out.stats = stats
@@ -252,6 +290,9 @@ def _replay_case(case):
     out, stats = Outcome(), {}
     drv = core.Driver()
     try:
+        if "inherited" in case:
+            inherited_case(drv, case["inherited"], out, stats, only=case.get("class_index"))
+            return out
         el = dsl.build(case["element"])
         defs = [(k, dsl.build(d), d) for k, d in case.get("definitions", [])]
         vals = [dsl.dec_val(v) for v in case.get("values", [])]
